@@ -170,8 +170,7 @@ class ProgGen:
 		"""Lambdas whose parameters are typed from the context and USED in the lambda body (the recorder sees their run-time types):
 		passed to a function / closure / method / constructor whose parameter is a callback — optional or not, None on either side of the
 		Union, with or without a default —, returned from a function declared to return a Callable, and called on the spot.
-		An annotated assignment `f: Callable[…] = lambda …` whose body uses a parameter sends the inference into an endless recursion
-		(known finding annotated-lambda-parameter, proposed/C03-annotated-lambda-parameter.md): low rate, result unused.
+		and assigned under a Callable annotation (the former finding annotated-lambda-parameter, repaired in 0020bae).
 		Returns (definitions, body lines of the entry function)."""
 		rng = self.rng
 		out: list[str] = []
@@ -267,12 +266,10 @@ class ProgGen:
 			elif kind == 'immediate':
 				decl(f"({lam(pts, u)})({', '.join(lit[t] for t in pts)})")
 			elif kind == 'anno':
-				if rng.random() < 0.3:
-					f = self.fresh('f')
-					body.append(f'\t{f}: {callable_of(pts, ret)} = {lam(pts, u)}')   # known finding (the call makes the body run)
-					decl(f"{f}({', '.join(lit[t] for t in pts)})")
-					self.count('annotated-lambda-parameter')
-				continue
+				f = self.fresh('f')
+				body.append(f'\t{f}: {callable_of(pts, ret)} = {lam(pts, u)}')
+				r = decl(f"{f}({', '.join(lit[t] for t in pts)})")
+				decl(f'[{r}]')
 			self.count(f'lambda:{kind}:{len(pts)}')
 		return out, body
 
@@ -350,7 +347,7 @@ class ProgGen:
 			imports.append('from enum import Enum')
 		if use_generic:
 			imports.append('from typing import Generic, TypeVar')
-		use_callbacks = rng.random() < 0.6 and not self.modelled
+		use_callbacks = rng.random() < 0.6
 		if use_callbacks:
 			imports.append('from collections.abc import Callable')
 		use_iter = rng.random() < (0.9 if self.modelled else 0.6)
